@@ -376,6 +376,16 @@ async fn acquire_authority_lock_with_recovery(
     }
 }
 
+/// Verification export (feature `verif`): the server's authority acquisition with recovery.
+#[cfg(all(feature = "verif", not(test)))]
+pub(crate) async fn verif_acquire_authority_lock_with_recovery(
+    data_dir: &std::path::Path,
+    workspace_root: &std::path::Path,
+) -> Result<AuthorityLockGuard, String> {
+    let client = Client::new();
+    acquire_authority_lock_with_recovery(&client, data_dir, workspace_root).await
+}
+
 #[cfg(not(test))]
 #[allow(dead_code)]
 pub(crate) fn build_app(data_dir: std::path::PathBuf) -> Router {
